@@ -352,6 +352,100 @@ def judge(spec) -> Outcome:
     return out
 
 
+# ---------------------------------------------------------------------------------------------
+# the same object estimated twice: the "best so far" starts again with every estimation
+
+
+@st.composite
+def strat_same_object(draw, tier):
+    spec = draw(ec.logit_problems(tier, min_free=1, max_free=3, n_rows=draw(st.integers(10, 25)), allow_fixed=True))
+    k = len(ec.Reference(spec).free_names)
+    spec['pole'] = None
+    spec['model_name'], spec['second_name'] = draw(st.permutations(MODEL_NAMES))[:2]
+    spec['poor_point'] = [draw(st.sampled_from([-3.0, -2.5, 2.5, 3.0, 2.0, -2.0])) for _ in range(k)]
+    spec['second_max_iter'] = draw(st.integers(1, 3))
+    spec['first'] = draw(st.sampled_from(['estimate', 'estimate', 'evaluations']))
+    return spec
+
+
+def _run_same_object(spec, workdir):
+    os.chdir(workdir)
+    the = _build(spec)
+    names = list(the.free_beta_names)
+    ref = ec.Reference(spec)
+    if spec['first'] == 'estimate':
+        first = float(the.estimate().data.logLike)
+    else:
+        first = float(the.calculate_likelihood_and_derivatives(list(ref.solve()), scaled=False, hessian=False, bhhh=False).function)
+    # an earlier, interrupted run of the model under its other name left its iteration file
+    other = _build(dict(spec, model_name=spec['second_name']))
+    other.calculate_likelihood_and_derivatives(list(spec['poor_point']), scaled=False, hessian=False, bhhh=False)
+    the.modelName = spec['second_name']
+    fname = the._save_iterations_file_name()
+    before = _read_file(fname)
+    the.max_iterations = int(spec['second_max_iter'])
+    log = []
+    orig = the.calculate_likelihood_and_derivatives
+
+    def spy(x, scaled, hessian=False, bhhh=False, batch=None):
+        r = orig(x, scaled=scaled, hessian=hessian, bhhh=bhhh, batch=batch)
+        f = float(r.function) * (float(the.database.get_sample_size()) if scaled else 1.0)
+        log.append(dict(x=[float(v) for v in x], f=f, scaled=bool(scaled),
+                        finite=bool(np.isfinite(np.linalg.norm(np.asarray(r.gradient, dtype=float)))), file=_read_file(fname)))
+        return r
+    the.calculate_likelihood_and_derivatives = spy
+    r2 = the.estimate()
+    return dict(names=names, fname=fname, first=first, before=before, log=log, after=_read_file(fname),
+                init=float(r2.data.initLogLike), final=float(r2.data.logLike))
+
+
+def judge_same_object(spec) -> Outcome:
+    out = Outcome()
+    workdir = tempfile.mkdtemp(prefix='verif_c15s_')
+    try:
+        res = isolate.call(_run_same_object, spec, workdir, timeout=300)
+        if not res['ok']:
+            out.fail(f'same_object:raises:{res["exc_type"]}', f'{res["exc_type"]}: {res["exc_msg"][:300]}')
+            return out
+        o = res['value']
+        names = o['names']
+        ref = ec.Reference(spec)
+        where = (f' [object first {spec["first"]}d as {spec["model_name"]!r} (log likelihood {o["first"]!r}), then estimated as '
+                 f'{spec["second_name"]!r} whose file held {spec["poor_point"]}, at most {spec["second_max_iter"]} iterations]')
+        vec0 = parse_iteration_file(o['before'], names)
+        if vec0 is None or not _same_bits(vec0, spec['poor_point']):
+            out.fail('same_object:setup', f'file before the second estimation: {o["before"]!r}' + where)
+            return out
+        if o['log'] and not _same_bits(o['log'][0]['x'], spec['poor_point']):
+            out.fail('same_object:starting_point', f'the second estimation starts at {o["log"][0]["x"]}, the file held {spec["poor_point"]}' + where)
+            return out
+        best_f, best_pts = None, []
+        for t, e in enumerate(o['log']):
+            f = ref.loglike(np.array(e['x']))  # the value of the stated likelihood at the evaluated point
+            if e['finite']:
+                if best_f is None or f > best_f + 1e-9 * (1 + abs(f)):
+                    best_f, best_pts = f, [e['x']]
+                elif abs(f - best_f) <= 1e-9 * (1 + abs(f)):
+                    best_pts.append(e['x'])
+            vec = parse_iteration_file(e['file'], names)
+            if vec is None:
+                out.fail('same_object:file_malformed', f'after evaluation {t + 1} of the second estimation the file is {e["file"]!r}' + where)
+                return out
+            if best_pts and not any(_same_bits(vec, p) for p in best_pts):
+                out.fail('same_object:not_best_of_this_estimation',
+                         f'after evaluation {t + 1} of the second estimation the file holds {vec}; the best point evaluated since '
+                         f'that estimation started is {best_pts[0]} (log likelihood {best_f!r})' + where)
+                return out
+        improved = best_f is not None and best_f > ref.loglike(np.array(spec['poor_point'])) + 1e-6
+        below_first = best_f is not None and best_f < o['first'] - 1e-6
+        out.classes += [f'first={spec["first"]}', f'max_iter={spec["second_max_iter"]}', f'evaluations={min(len(o["log"]), 6)}',
+                        'improved' if improved else 'not_improved', 'below_first' if below_first else 'reached_first']
+        out.nontrivial = improved and below_first
+    finally:
+        shutil.rmtree(workdir, ignore_errors=True)
+    return out
+
+
 def render(spec):
     return (f'model {spec["model_name"]!r}: params {[p[0] for p in spec["params"]]} pole {spec["pole"]}, '
             f'{len(spec["points"])} evaluations at {spec["points"][:3]}..., then_estimate={spec["then_estimate"]}')[:500]
@@ -365,5 +459,13 @@ SUBCHECKS = [
              'history is re-run once per harness-visible step of every save with the process stopped there, followed by a '
              'restart; non-trivial: a worsening step after an improvement and a crash point strictly inside a save',
              max_skip_fraction=0.2),
+    SubCheck('same_object', strat_same_object, judge_same_object,
+             lambda c: f"object {c['first']}d as {c['model_name']!r}, then estimated as {c['second_name']!r} from {c['poor_point']} with {c['second_max_iter']} iterations",
+             dict(quick=120, thorough=2500),
+             'ONE object: estimated (or evaluated at the maximum) under one model name, then renamed to a name whose iteration file '
+             '(left by another object) holds a poor point, and estimated again with 1-3 iterations; every evaluation of the second '
+             'estimation is intercepted and the file read after it: it must hold the best point evaluated since that estimation '
+             'started; non-trivial: the second estimation improves on the poor point and stays below the first result',
+             max_skip_fraction=0.2),
 ]
-RULE = SUBCHECKS[0].rule
+RULE = ' | '.join(f'{s.name}: {s.rule}' for s in SUBCHECKS)
